@@ -270,6 +270,12 @@ func checkC12(c *Ctx, r *Report) {
 			loops := naturalLoops(sel)
 			for _, ifi := range ifsOf(sel) {
 				ex, isEx := ifi.Cond.(*ssa.Extract)
+				if !isEx {
+					// the test may be the result of a helper that does the lookup (`set.contains(x)`)
+					if os := viewOrigins(sel, ifi.Cond); len(os) == 1 {
+						ex, isEx = os[0].(*ssa.Extract)
+					}
+				}
 				if !isEx || ex.Index != 1 {
 					continue
 				}
@@ -277,7 +283,12 @@ func checkC12(c *Ctx, r *Report) {
 				if !isLk || !lk.CommaOk {
 					continue
 				}
-				idx := elemIndex(lk.Index)
+				// only tests made by the selector itself (the If may sit in the helper: then the
+				// selector's own branch on the helper's result is the one that matters)
+				if ifi.Parent() != sel {
+					continue
+				}
+				idx := elemIndex(viewVal(sel, lk.Index))
 				if idx == nil {
 					whyLoop = "the membership test is not keyed by an element of the caller's preference list"
 					continue
@@ -579,6 +590,14 @@ func checkC12(c *Ctx, r *Report) {
 			chosen = extractOf(call, 0)
 		}
 	})
+	if chosen == nil && sel != nil {
+		// the selection is made by a stage of the handshake spliced into the view
+		viewInstrs(m.Fn, func(in ssa.Instruction) {
+			if call, ok := in.(*ssa.Call); ok && call.Call.StaticCallee() == sel {
+				chosen = extractOf(call, 0)
+			}
+		})
+	}
 	// the request: the literal handed to the call that performs the Open Session exchange — the
 	// constructor's own call, or, when that is a wrapper spliced into the view, the innermost
 	// call returning the response
@@ -595,13 +614,13 @@ func checkC12(c *Ctx, r *Report) {
 			if len(as) == 0 {
 				return
 			}
-			if al, isAl := as[len(as)-1].(*ssa.Alloc); isAl && isPtrTo(al.Type(), reqT) {
+			if al := allocThrough(as[len(as)-1]); al != nil && isPtrTo(al.Type(), reqT) {
 				openReq = call
 			}
 		})
 	}
 	args := callArgs(&openReq.Call)
-	reqLit, _ := args[len(args)-1].(*ssa.Alloc)
+	reqLit := allocThrough(args[len(args)-1])
 	// a field of the chosen suite, read where the request is built (possibly in a helper that
 	// received the suite as an argument)
 	isChosenField := func(v ssa.Value, field string) bool {
@@ -685,10 +704,17 @@ func checkC12(c *Ctx, r *Report) {
 	// recording
 	r.Rule("recorded", "the session records the negotiated algorithms and is built from hash/cipher objects constructed for exactly those algorithms", 5)
 	lit, _, _ := complitFieldsAlloc(m.Lit)
+	c.checkStateReads(r, m, name, func(f *types.Var) bool {
+		// the negotiation's values: the response and the chosen suite
+		return isPtrTo(f.Type(), c.Named("pkg/ipmi", "OpenSessionRsp")) || isPtrTo(f.Type(), c.Named("pkg/ipmi", "CipherSuite"))
+	})
 	for _, a := range algs {
 		v := lit[a.field]
 		ld, isLd := v.(*ssa.UnOp)
 		ok := isLd && apOf(ld.X).Root == m.OpenRsp && apOf(ld.X).SelString() == a.payload+".Algorithm"
+		if !ok {
+			ok = selLoadOf(v, m.OpenRsp, a.payload+".Algorithm")
+		}
 		if !ok && chosen != nil {
 			ok = fieldLoadOf(v, chosen, a.field)
 		}
@@ -703,7 +729,7 @@ func checkC12(c *Ctx, r *Report) {
 				a0 := call.Call.Args[0]
 				if ld, isLd := a0.(*ssa.UnOp); isLd {
 					ap := apOf(ld.X)
-					if (ap.Root == m.OpenRsp && ap.SelString() == w.payload+".Algorithm") || (chosen != nil && fieldLoadOf(a0, chosen, w.alg)) {
+					if (ap.Root == m.OpenRsp && ap.SelString() == w.payload+".Algorithm") || selLoadOf(a0, m.OpenRsp, w.payload+".Algorithm") || (chosen != nil && fieldLoadOf(a0, chosen, w.alg)) {
 						ok = true
 					}
 				}
@@ -775,4 +801,29 @@ func (c *Ctx) cipherSuiteParser() *ssa.Function {
 		}
 	}
 	return nil
+}
+
+// allocThrough: the composite literal a value denotes — the literal itself, or the one an
+// unexported builder function returns on all its paths.
+func allocThrough(v ssa.Value) *ssa.Alloc {
+	if al, ok := v.(*ssa.Alloc); ok {
+		return al
+	}
+	call, ok := v.(*ssa.Call)
+	if !ok {
+		return nil
+	}
+	f := call.Call.StaticCallee()
+	if f == nil || f.Blocks == nil || f.Object() == nil || f.Object().Exported() || f.Signature.Results().Len() != 1 {
+		return nil
+	}
+	var out *ssa.Alloc
+	for _, ret := range returnsOf(f) {
+		al, ok := ret.Results[0].(*ssa.Alloc)
+		if !ok || (out != nil && out != al) {
+			return nil
+		}
+		out = al
+	}
+	return out
 }
